@@ -246,6 +246,12 @@ SMALL = {
                           "R tk 5 0 1 childof 4 0 0 1", "R tk 5 0 1 wait_kill 4 15", "R wait 4 0 1 wait_unreg 4",
                           "T 1 iv_main", "T 1 iv_deinit", "S wait_spawn 1", "R wait 1 0 1 wait_unreg 1",
                           "E 1 childof 1 0 0"]),
+        # ... and the same with the interest dropped instead of signalled
+        "unreg-vs-reap": ("sigsim=1 maxcb=300 pids=101,102,103 chldthr=0",
+                          ["O wait 1", "O wait 4", "O tk 5", "S spawn 1", "T 1 iv_init", "T 1 wait_spawn 4", "T 1 tk_reg 5",
+                           "R tk 5 0 1 childof 4 0 0 1", "R tk 5 0 1 wait_unreg 4",
+                           "T 1 iv_main", "T 1 iv_deinit", "S wait_spawn 1", "R wait 1 0 1 wait_unreg 1",
+                           "E 1 childof 1 0 0"]),
         # SIGCHLD is taken by a thread that never used the library (it has no loop): the interests of the
         # other threads are still served
         "sigchld-foreign-thread": ("sigsim=1 maxcb=300 pids=101,102,103 chldthr=1",
